@@ -10,6 +10,10 @@ import z3
 from . import lib
 
 
+import shutil
+Z3NEW = shutil.which("z3-new") or "/nonexistent/z3-new"
+
+
 def to_smt2(ctx, ob, bounded=None):
     s = z3.Solver()
     for h in ob.hyps:
@@ -115,9 +119,12 @@ def _run_cli(cmd, smt2, timeout_s):
 
 def _work(job):
     idx, smt2, timeout_ms, expect, second = job
+    if expect == "sat":
+        # vacuity guard: only a quick `unsat` matters; `unknown` is accepted
+        timeout_ms, second = min(timeout_ms, 2000), False
     res = dict(idx=idx, verdict=None, backend=None, seconds=0.0, model=None, tried=[])
     try:
-        r, dt, model, reason = _run_z3_api(smt2, timeout_ms)
+        r, dt, model, reason = _run_z3_api(smt2, timeout_ms if not second else max(1000, timeout_ms // 3))
     except Exception as exc:   # z3 parse/internal error: not a verdict
         r, dt, model, reason = "error", 0.0, None, repr(exc)
     res["tried"].append(("z3-5.1", r, round(dt, 3)))
@@ -127,7 +134,8 @@ def _work(job):
         return res
     res["reason"] = reason
     if second:
-        for name, cmd in (("cvc5-1.0", ["/usr/bin/cvc5", "--lang=smt2", "--strings-exp", "--tlimit=%d" % timeout_ms]),
+        for name, cmd in (("z3-5.1-cli", [Z3NEW, "-T:%d" % max(1, timeout_ms // 1000)]),
+                          ("cvc5-1.0", ["/usr/bin/cvc5", "--lang=smt2", "--strings-exp", "--tlimit=%d" % timeout_ms]),
                           ("z3-4.8", ["/usr/bin/z3", "-T:%d" % max(1, timeout_ms // 1000)])):
             if not os.path.exists(cmd[0]):
                 continue
